@@ -51,6 +51,9 @@ def encode_event(e, d="out"):
         return {"e": k, "ok": e["ok"], "pid": e["pid"]}
     if k == "scancel":
         return {"e": k, "b": e["b"]}
+    if k == "hook":
+        return {"e": k, "which": e["which"], "b": (-1 if e["which"] in ("setup", "teardown") else e["b"]), "envok": e["envok"], "grp": e["grp"], "rows": e["rows"], "live": e["live"],
+                "pid": e["pid"], "rc": e["rc"]}
     if k == "cop":
         return {x: e[x] for x in ("e", "pid", "op", "hcver", "hjver", "dcver", "djver", "exc", "changed", "wcfg", "wjs", "ok",
                                   "before", "host", "loaded")}
